@@ -198,7 +198,8 @@ pub fn cases(tier: Tier, _seed: u64) -> Vec<Case> {
     // small data sets, everything symbolic, every objective
     for obj in Obj::all() {
         let act = if obj.probabilistic() { Act::Sigmoid } else { Act::Linear };
-        out.push(validate_case(if full { 3 } else { 2 }, obj, act, true));
+        let forks = matches!(obj, Obj::AE | Obj::MAE | Obj::RMSE);
+        out.push(validate_case(if full && !forks { 3 } else { 2 }, obj, act, true));
     }
     out.push(validate_case(2, Obj::CrossEntropy, Act::Softmax, true));
     out.push(validate_single_output_case(2));
